@@ -355,7 +355,8 @@ func init() {
 			"client.discover_pick":       findStmt(c, disc, "if", "res.SupportedVersions, protocolVersion"),
 			"client.discover_else":       findStmt(c, disc, "assign", "negotiated =", "negotiateMutuallySupportedVersion"),
 			"client.discover_reject":     findStmt(c, disc, "if", "negotiated <"),
-			"server.handle_unsupported":  findStmt(c, hand, "if", "usesNewProtocol", "supportedProtocolVersions"),
+			"server.handle_unsupported":  findStmt(c, hand, "if", "usesNewProtocol", "slices.Contains"),
+			"server.handle_accepted":     findStmt(c, hand, "assign", "acceptedVersions :=") + " | " + findStmt(c, hand, "if", "req.Method == methodDiscover") + " | " + findStmt(c, hand, "assign", "acceptedVersions ="),
 			"server.handle_data":         findStmt(c, hand, "kv", "Supported:"),
 			"server.discover_versions":   findStmt(c, sdisc, "assign", "versions :=", "supportedVersions"),
 			"server.discover_nil":        findStmt(c, sdisc, "if", "versions == nil"),
